@@ -22,6 +22,7 @@ func checkC10(c *Check, a *Anchors) {
 	c10PhaseSources(c, a)
 	environIsLowest(c, a)
 	c10EveryDeclaredVarStored(c, a)
+	c08CopyExhaustive(c, a) // the include-statement variables are merged into the copied task's IncludeVars: a copy that shares it gives the tasks of one include statement the values of another
 }
 
 // phaseOf classifies the expression a getVariables loop ranges over.
@@ -428,6 +429,23 @@ func c10WriteOrder(c *Check, a *Anchors) {
 					if v == nil || !isNamed(v.Type(), PkgAst, "Var") {
 						return true
 					}
+					// … and it is stored as it came out: not passed through another function on the way into the literal
+					// (TrimSpace, a "tidy" helper …) — a value given on the command line must reach the templates byte for byte
+					wrapped := ""
+					ast.Inspect(arg, func(k ast.Node) bool {
+						if wc, ok := k.(*ast.CallExpr); ok && within(sel, wc) && wc.Fun != ast.Expr(sel) {
+							if tv, ok := info.Types[wc.Fun]; !ok || !tv.IsType() {
+								for _, wa := range wc.Args {
+									if within(sel, wa) {
+										wrapped = exprStr(wc.Fun)
+									}
+								}
+							}
+						}
+						return true
+					})
+					c.Decide(wrapped == "", "vars-write-order", "value-verbatim "+v.Name()+"@"+fnDisplay(lit), call.Pos(), "the templater's result is stored unchanged",
+						"the range function passes `"+exprStr(sel)+"` through `"+wrapped+"` before storing it: the value of a variable (a NAME=value argument included) no longer reaches {{.NAME}} / {{shellQuote .NAME}} byte for byte")
 					c.Decide(st.Has(defPrefix(v)+"replace"), "vars-write-order", "value-copied "+v.Name()+"@"+fnDisplay(lit), call.Pos(), "the stored value is the templater's copy",
 						"the range function stores `"+exprStr(sel)+"` although `"+v.Name()+"` is not, on every path, the result of templater.ReplaceVar: a map or list passed by `ref:` is stored as the caller's own object, so what one callee's template does to it (set / unset / mergeOverwrite) is seen by the next call and by the caller; must-facts: "+st.String())
 					return true
@@ -979,7 +997,7 @@ func c10PhaseSources(c *Check, a *Anchors) {
 		}
 		c.Decide(fromParam && snapshot && lastIsSnapshot, "phase-sources", "included-taskfile-vars@"+fnDisplay(tm), call.Pos(), "Tasks.Merge(..., <what the included Taskfile itself declares>)",
 			fmt.Sprintf("(from the included Taskfile: %v; from a variable set that no deeper include is merged into: %v) ", fromParam, snapshot)+
-			fmt.Sprintf("Taskfile.Merge passes `%s` as the included Taskfile's variables (receiver: %v): the parent's merged globals are re-applied above the include statement's vars, so a global variable beats `includes: {x: {vars: ...}}`", exprStr(arg), rootVar(info, arg) == recv))
+				fmt.Sprintf("Taskfile.Merge passes `%s` as the included Taskfile's variables (receiver: %v): the parent's merged globals are re-applied above the include statement's vars, so a global variable beats `includes: {x: {vars: ...}}`", exprStr(arg), rootVar(info, arg) == recv))
 	}
 	c.Floor("phase-sources", n, 1)
 	tk := tasksMerge(c)
@@ -1054,7 +1072,6 @@ func c10PhaseSources(c *Check, a *Anchors) {
 	c.Decide(okIncluded, "phase-sources", "IncludedTaskfileVars-source@"+fnDisplay(tk), tk.Decl.Pos(), "built from the included-Taskfile vars parameter", "Task.IncludedTaskfileVars is not built from the vars parameter of Tasks.Merge")
 	c.Decide(okStmt, "phase-sources", "IncludeVars-source@"+fnDisplay(tk), tk.Decl.Pos(), "Task.IncludeVars merged from include.Vars", "Task.IncludeVars is not merged from the include statement's Vars")
 }
-
 
 // rangingHelper: h(vars, fn) ranges over vars.All() (its first parameter), hands every (k, v) to its function parameter
 // unconditionally and returns that function's error as soon as it is non-nil.
